@@ -138,7 +138,6 @@ func vRunE2ECancel(c vCase) string {
 	return fmt.Sprintf("ret=%s retms=%d hstarted=%v hctx=%d", cls, retms, hstarted, atomic.LoadInt32(&hctx))
 }
 
-
 // two notification handlers are running on the far transport; a later Notify is abandoned by its caller (cancel / deadline)
 // while its frame is still being written; nobody cancelled the two running notifications: their contexts must stay live
 func vRunE2ENotify(c vCase) string {
@@ -228,7 +227,6 @@ func vRunE2ENotify(c vCase) string {
 	close(release)
 	return fmt.Sprintf("ret=%s foreign=%d started=%d", rs, foreign, atomic.LoadInt32(&nstarted))
 }
-
 
 // vRunE2EBurst: n calls are being served by the other transport; the peer then stops reading for a moment (the writer is stuck
 // inside Write with an unrelated frame) and the caller gives up ALL of them at once (one shared parent context); when the peer
